@@ -17,7 +17,7 @@ def tl_mode(segs):
     h = 0
     for a, b in segs:
         h = (h * 29 + 5 * a + 11 * b) % 1000003
-    return (h + len(segs)) % 5
+    return (h + len(segs)) % 8
 
 
 def mk_tl(tb, segs, uri=None, mode=None):
@@ -26,7 +26,9 @@ def mk_tl(tb, segs, uri=None, mode=None):
     the last segment, every query called once (at every bound as time point), then the placeholder is
     removed and the last segment added - same number of segments before and after; 3 / 4 the first half (plus
     one shared segment) built, every query called once, then the second half merged in with update() / |=
-    (the two operands share a segment, and the merge usually moves the extent)."""
+    (the two operands share a segment, and the merge usually moves the extent); 5 as 3 with an extra segment shared
+    by both operands that is removed after the merge; 6 a copy() of a timeline holding `segs`, whose source is then
+    edited (an addition, a removal); 7 a copy() of a partial timeline, completed in place, whose source is then edited."""
     from pyannote.core import Timeline
     mode = tl_mode(segs) if mode is None else mode
     S = [tb.S(s) for s in segs]
@@ -49,6 +51,32 @@ def mk_tl(tb, segs, uri=None, mode=None):
         return t
     far = max(abs(x) for s in segs for x in s) + 1000
     dummy = tb.S([far, far + 7])
+    if mode == 5:
+        k = len(S) // 2
+        mid = tb.S([min(x for s in segs for x in s) - 3, far])           # overlaps everything: a ghost would show
+        t = Timeline(S[:k] + [mid, dummy], uri=uri)
+        _prime_tl(t, probes)
+        t.update(Timeline(S[k:] + [mid, dummy], uri="other"))
+        t.remove(mid)
+        t.discard(dummy)
+        return t
+    if mode in (6, 7):
+        k = len(S) if mode == 6 else len(S) // 2
+        src = Timeline(S[:k] + ([dummy] if mode == 7 else []), uri=uri)
+        if len(segs) % 2:
+            _prime_tl(src, probes)
+        t = src.copy()
+        if mode == 7:
+            t.remove(dummy)
+            for x in S[k:]:
+                t.add(x)
+        # the source lives on and is edited: nothing of that may reach the copy
+        src.add(tb.S([far + 20, far + 30]))
+        src.add(tb.S([min(x for s in segs for x in s) - 5, far]))
+        for x in list(src)[:2]:
+            src.remove(x)
+        src.uri = "zz_source"
+        return t
     t = Timeline(S[:-1] + [dummy], uri=uri)
     _prime_tl(t, probes)
     t.remove(dummy)
